@@ -250,6 +250,111 @@ func runC16(c *explore.Ctx) {
 	sent("sentences-exec", execSide, false, c.Pick(7, 9))
 	sent("sentences-sdl", sdlSide, true, c.Pick(6, 7))
 
+	// several sources: the limit applies to each source
+	s0 := c.Sub("limits-sources", "every ordered pair of type-system sentences of ≤ 3 tokens (core alphabet; schema definitions / extensions one token longer) as two sources × every assignment of the built-in flag × every limit 0 … max(N₁,N₂)+1 through ParseSchemasWithLimit",
+		"succeeds ⇔ every source parses without a limit ∧ (L = 0 ∨ every source has at most L tokens); identical tree on success", "pairs that parse")
+	if s0 != nil {
+		t0 := time.Now()
+		g := sdlSide.grammar()
+		var texts []string
+		for _, sent := range language(sdlSide, g, "core", sdlSide.core, 4, false) {
+			if len(sent.Classes) <= 3 || (strings.Contains(sent.Tree, "defs[]") && strings.Contains(sent.Tree, "exts[]") && strings.Contains(sent.Tree, "directives[]")) {
+				texts = append(texts, renderClasses(sdlSide.core, sent.Classes, " "))
+			}
+		}
+		texts = append(texts, "type a { a : a } # c\n", "? a")
+		idx := 0
+		for _, a := range texts {
+			for _, b := range texts {
+				idx++
+				if idx%c.NShards != c.Shard {
+					continue
+				}
+				s0.States++
+				na, nb := len(reflex.Lex(a, reflex.Defects{}).Tokens), len(reflex.Lex(b, reflex.Defects{}).Tokens)
+				_, ea := parser.ParseSchema(&ast.Source{Input: a, Name: "a"})
+				_, eb := parser.ParseSchema(&ast.Source{Input: b, Name: "b"})
+				for flags := 0; flags < 4; flags++ {
+					srcs := func() []*ast.Source {
+						return []*ast.Source{{Input: a, Name: "a", BuiltIn: flags&1 != 0}, {Input: b, Name: "b", BuiltIn: flags&2 != 0}}
+					}
+					ud, uerr := parser.ParseSchemas(srcs()...)
+					max := na
+					if nb > max {
+						max = nb
+					}
+					for limit := 0; limit <= max+1; limit++ {
+						s0.Executions++
+						s0.Transitions++
+						d, err := parser.ParseSchemasWithLimit(limit, srcs()...)
+						s0.Validated++
+						want := ea == nil && eb == nil && (limit == 0 || (na <= limit && nb <= limit))
+						in := sourcesInput{Sources: []string{a, b}, BuiltIn: []bool{flags&1 != 0, flags&2 != 0}}
+						rendered := fmt.Sprintf("%s\n---\n%s   builtin=%v limit=%d", a, b, in.BuiltIn, limit)
+						switch {
+						case err == nil && !want:
+							c.Report(s0, explore.Violation{Key: "limit/sources-not-enforced", Input: explore.J(in), Rendered: rendered, Detail: fmt.Sprintf("ParseSchemasWithLimit(%d) succeeds although a source has more tokens (N=%d,%d) or does not parse", limit, na, nb)})
+						case err != nil && want:
+							c.Report(s0, explore.Violation{Key: "limit/sources-false-reject", Input: explore.J(in), Rendered: rendered, Detail: fmt.Sprintf("ParseSchemasWithLimit(%d) fails (%v) although both sources parse and have N=%d,%d tokens", limit, err, na, nb)})
+						case err == nil && uerr == nil && projSDL(d) != projSDL(ud):
+							c.Report(s0, explore.Violation{Key: "limit/sources-tree-differs", Input: explore.J(in), Rendered: rendered, Detail: "the limited parse of the sources builds a different tree"})
+						}
+						if err == nil {
+							s0.Nontrivial++
+						}
+					}
+				}
+			}
+		}
+		s0.Outcome("checked")
+		s0.WallS = time.Since(t0).Seconds()
+	}
+
+	// limit 0 and a limit above the token count behave like the unlimited entry point, at every size
+	s1 := c.Sub("families-unlimited", fmt.Sprintf("%d size families × n = 2^k up to 64 KiB, through the limited entry points with limit 0 and with limit 2³⁰", len(gen.ParseFamilies)),
+		"the limited entry point with limit 0 (unlimited) or a limit above the token count succeeds exactly when the unlimited entry point does", "every case")
+	if s1 != nil {
+		t0 := time.Now()
+		idx := 0
+		for fi := range gen.ParseFamilies {
+			f := &gen.ParseFamilies[fi]
+			for n := 1; len(f.Make(n)) <= 64<<10; n *= 2 {
+				idx++
+				if idx%c.NShards != c.Shard {
+					continue
+				}
+				if c.Expired() {
+					s1.Cap("deadline")
+					break
+				}
+				text := f.Make(n)
+				s1.States++
+				for _, sdl := range []bool{false, true} {
+					_, uerr, ur := c16Parse(text, sdl, 0, true)
+					if ur.Panicked {
+						continue
+					}
+					for _, limit := range []int{0, 1 << 30} {
+						s1.Executions++
+						s1.Transitions++
+						_, err, r := c16Parse(text, sdl, limit, false)
+						if r.Panicked {
+							continue
+						}
+						s1.Validated++
+						if (err == nil) != (uerr == nil) {
+							c.Report(s1, explore.Violation{Key: fmt.Sprintf("limit/unlimited-differs L=%d", limit), Input: explore.J(famInput{f.Name, n, limit}), Rendered: fmt.Sprintf("family=%s n=%d limit=%d bytes=%d sdl=%v", f.Name, n, limit, len(text), sdl),
+								Detail: fmt.Sprintf("unlimited entry point: %v; limited entry point with limit %d: %v", uerr, limit, err)})
+						}
+					}
+				}
+				s1.Nontrivial++
+			}
+		}
+		s1.Outcome("checked")
+		s1.WallS = time.Since(t0).Seconds()
+	}
+
 	// size families under small limits: work must not depend on the input size
 	s := c.Sub("families", fmt.Sprintf("%d size families with short tokens (nesting of [ { ( and selection sets, token / comment / definition floods) × n = 2^k up to %s × limits {1, 16, 1024, 65536} (only n > limit), both parsers", len(gen.ParseFamilies)-len(c16Excluded), map[bool]string{false: "1 MiB", true: "8 MiB"}[c.Thorough()]),
 		"the limited parse fails, within 4000+600·L steps and call depth 200+70·L — bounds that do not mention the input size (a parser that does work before checking the limit exceeds them as n doubles)", "every case")
